@@ -22,6 +22,7 @@ class Gen:
                  fail_rate=1.0, start_times=(0,), allow_inf=False):
         self.rng = rng
         self.weights = dict(DEFAULT_WEIGHTS)
+        self.scope_ids = []
         if weights:
             self.weights.update(weights)
         self.weights['raise'] = self.weights['raise'] * fail_rate
@@ -83,6 +84,8 @@ class Gen:
         op = rng.choices(ops, [weights[o] for o in ops])[0]
         step = getattr(self, 'g_' + op)(depth)
         step['id'] = self.next_id('s')
+        if op in ('scope', 'until'):
+            self.scope_ids.append(step['id'])
         return step
 
     # -- notifications -------------------------------------------------------
@@ -231,6 +234,8 @@ class Gen:
             spec['at'] = self.date()
         if rng.random() < 0.3:
             spec['result'] = self.next_id('v')
+        elif rng.random() < 0.12:
+            spec['result'] = rng.choice([0, '', False, [], 0.0])     # falsy results
         spec['steps'] = self.steps(depth + 1)
         self.tasks.append(name)
         return spec
@@ -272,6 +277,9 @@ class Gen:
             step.update(payload='task', task=rng.choice(self.tasks))
         else:
             step.update(payload='notif', n=self.notif())
+        if self.scope_ids and rng.random() < 0.25:
+            # some other block of the program: may have ended (refused), may be running
+            step['scope'] = rng.choice(self.scope_ids)
         return step
 
     def g_cancel(self, depth):
@@ -287,7 +295,7 @@ class Gen:
 
     def g_raise(self, depth):
         rng = self.rng
-        kind = rng.choice(['err', 'err', 'err', 'key', 'index', 'lookup'])
+        kind = rng.choice(['err', 'err', 'err', 'key', 'index', 'lookup', 'eq', 'eq', 'falsy'])
         if rng.random() < 0.12:
             # subclasses of the exceptions that scopes treat specially
             kind = rng.choice(['exit', 'kbd', 'assert'])
